@@ -420,6 +420,62 @@ def job_gspace(p: Dict[str, Any]) -> Dict[str, Any]:
     return out
 
 
+CHAIN_OPS = ("Relu", "Neg", "Abs", "Exp", "Tanh", "Sigmoid", "Sqrt", "AddSc", "MulSc", "Elu")
+
+
+def job_chain(p: Dict[str, Any]) -> Dict[str, Any]:
+    """Transpose -> chain of elementwise ops -> inverse Transpose, every chain over CHAIN_OPS of the given length:
+    after the real optimizer every annotated value of the folded graph is observed at run time."""
+    import itertools
+    from onnx import helper
+    from mc import gspace as G
+    out = {"graphs": 0, "changed": 0, "values": 0, "problems": [], "digests": []}
+    shape = (2, 3, 4)
+    perm_f, perm_i = (1, 2, 0), (2, 0, 1)
+    x = (np.arange(24, dtype=np.float32).reshape(shape) * 0.25 + 0.5)
+    for chain in itertools.product(CHAIN_OPS, repeat=p["length"]):
+        if chain[0] != p["first"]:
+            continue
+        for pa, pb in ((perm_f, perm_i), (perm_i, perm_f)):
+            nodes = [helper.make_node("Transpose", ["x"], ["t0"], perm=list(pa))]
+            inits = []
+            cur = "t0"
+            for k, op in enumerate(chain):
+                nxt = f"e{k}"
+                if op == "AddSc":
+                    inits.append(G.const_init(f"c{k}", np.array(1.5, np.float32)))
+                    nodes.append(helper.make_node("Add", [cur, f"c{k}"], [nxt]))
+                elif op == "MulSc":
+                    inits.append(G.const_init(f"c{k}", np.array(2.0, np.float32)))
+                    nodes.append(helper.make_node("Mul", [cur, f"c{k}"], [nxt]))
+                else:
+                    nodes.append(helper.make_node(op, [cur], [nxt]))
+                cur = nxt
+            nodes.append(helper.make_node("Transpose", [cur], ["y"], perm=list(pb)))
+            try:
+                model = G.annotate(G.make_model(nodes, [G.vi("x", 1, shape)], [G.vi("y", 1, None)], initializers=inits))
+                after = G.optimize(model)
+            except Exception:
+                continue
+            out["graphs"] += 1
+            if sorted(G.op_histogram(model).items()) == sorted(G.op_histogram(after).items()):
+                continue
+            out["changed"] += 1
+            st, probs = observe_top(after, {"x": x})
+            if st.startswith("ok:"):
+                out["values"] += int(st[3:])
+            elif st == "unloadable":
+                s1, msg1 = G.ort_run(after, {"x": x})
+                if s1 == "load_error":
+                    probs = [f"graph: optimised model is rejected because of its annotations: {str(msg1)[:200]}"]
+            if len(out["digests"]) < 300:
+                out["digests"].append(G.model_digest(after)[:12])
+            for pr in probs[:1]:
+                if len(out["problems"]) < 10:
+                    out["problems"].append({"graph": "T;" + ";".join(chain) + ";T'", "what": pr})
+    return out
+
+
 def main(tier: str) -> int:
     run = Run(PROP, tier)
     from mc import grammars
@@ -497,6 +553,22 @@ def main(tier: str) -> int:
             for pr in r["problems"]:
                 cls = "dtype" if " declared " in pr["what"] and "but is" in pr["what"] else "shape"
                 run.violation(f"gspace|{pr['graph']}|{cls}", pr["what"], {"kind": "gspace", "case": p, "vector": pr["vector"]})
+        cjobs = [{"length": L, "first": f} for L in ((2, 3) if tier == "quick" else (2, 3, 4)) for f in CHAIN_OPS]
+        for _i, p, r in pool.imap("checks.c08", "job_chain", cjobs):
+            if is_worker_failure(r):
+                run.harness_error(f"chain {p}: {r.get('_worker')} {r.get('msg', '')[:120]}")
+                continue
+            run.add("evaluations", r["graphs"])
+            run.add("transitions", r["changed"])
+            run.add("traces_validated_against_impl", r["graphs"])
+            gstats["gspace_graphs_changed_by_optimizer"] += r["changed"]
+            gstats["gspace_values_observed"] += r["values"]
+            for dg in r["digests"]:
+                run.state(dg)
+                run.nontrivial(dg)
+            for pr in r["problems"]:
+                cls = "dtype" if " declared " in pr["what"] and "but is" in pr["what"] else "shape"
+                run.violation(f"chain|{pr['graph']}|{cls}", pr["what"], {"kind": "chain", "case": p})
         stats.update(gstats)
     run.cov.update(stats)
     return run.finish()
@@ -504,6 +576,6 @@ def main(tier: str) -> int:
 
 def replay(rep: Dict[str, Any]) -> Dict[str, Any]:
     with Pool(1, init=("mc.runners", "warm_export")) as pool:
-        fn = {"corpus": "job_corpus", "gspace": "job_gspace"}.get(rep["kind"], "job_nest")
+        fn = {"corpus": "job_corpus", "gspace": "job_gspace", "chain": "job_chain"}.get(rep["kind"], "job_nest")
         r = pool.map("checks.c08", fn, [rep["case"]])[0]
     return {"violation": bool(r.get("problems")), "observed": r}
